@@ -8,6 +8,8 @@ def plan(tier):
     from vf.driver import Cond
     conds.append(Cond("vf.h.h_clock", "h_restep", case=0, timeout=600, label="H16-restep-saved-payload", weight=20))
     conds.append(Cond("vf.h.h_clock", "h_restep_human", case=0, timeout=600, label="H16-restep-human-driver", weight=5))
+    conds.append(Cond("vf.h.h_shift", "h_drv", case=0, timeout=600, label="H16-shift-flip[driver update, v0 idle]", weight=20))
+    conds.append(Cond("vf.h.h_shift", "h_step_shift", case=0, timeout=600, label="H16-shift-flip[step at a shift boundary]", weight=20))
     ek = ("vehicle", "request", "station", "base")
     op = ("add", "modify", "remove")
     for k in range(4):
@@ -16,8 +18,8 @@ def plan(tier):
     return {
         "conds": conds,
         "min_classes": 150,
-        "explanation": 'C16: a retained pre-state object is structurally identical (deep snapshot incl. instance ids) after the transition, and applying the same transition twice from it gives equal results modulo instance ids. H16-restep: a saved payload (state + controller objects returned by a real step) is stepped twice through the real Update.apply_update: equal results, check-point unchanged. H16-restep-human-driver: the same with a human driver who relocates on his own (two equally dense request cells), every random draw reachable from nrel.hive module globals being a solver-chosen value. H16-two-ops: two consecutive simulation_state_ops operations (add / modify / remove of a vehicle, request, station or base); the state kept between them and the initial state read the same afterwards, and the second operation repeated from the kept state gives an equal result.',
-        "entry_points": ['simulation_state_ops.{add,modify,remove}_{vehicle,request,station,base}_safe', 'DictOps.add_to_collection_dict/remove_from_collection_dict', 'HumanAvailable.generate_instruction / human_look_for_requests', 'step_simulation_ops.apply_instructions', 'step_simulation_ops.step_vehicle (VehicleState.update -> default_update -> move/charge/idle/pick_up_trip/drop_off_trip)'],
+        "explanation": 'C16: a retained pre-state object is structurally identical (deep snapshot incl. instance ids) after the transition, and applying the same transition twice from it gives equal results modulo instance ids. H16-restep: a saved payload (state + controller objects returned by a real step) is stepped twice through the real Update.apply_update: equal results, check-point unchanged. H16-restep-human-driver: the same with a human driver who relocates on his own (two equally dense request cells), every random draw reachable from nrel.hive module globals being a solver-chosen value. H16-shift-flip: the driver-state update of two human drivers at / around a shift boundary (and a whole step there) leaves the state it started from unchanged. H16-two-ops: two consecutive simulation_state_ops operations (add / modify / remove of a vehicle, request, station or base); the state kept between them and the initial state read the same afterwards, and the second operation repeated from the kept state gives an equal result.',
+        "entry_points": ['simulation_state_ops.{add,modify,remove}_{vehicle,request,station,base}_safe', 'DictOps.add_to_collection_dict/remove_from_collection_dict', 'HumanAvailable.generate_instruction / human_look_for_requests', 'step_simulation_ops.perform_driver_state_updates (DriverState.update, Vehicle.modify_driver_state)', 'step_simulation_ops.apply_instructions', 'step_simulation_ops.step_vehicle (VehicleState.update -> default_update -> move/charge/idle/pick_up_trip/drop_off_trip)'],
         "bounds": C.ARENA_BOUNDS + C.T_BOUNDS,
         "outside": C.T_OUTSIDE,
         "stubs": C.STUBS_COMMON + C.STUBS_UPD + ["SymRandom: the random module / random.Random instances held in nrel.hive module globals return fresh solver-chosen draws (no such global exists in the pinned tree)"],
